@@ -67,6 +67,7 @@ func uuidCase(o *hx.Out, cat string, name []byte) {
 	if p != "" || got != want || str != wantStr {
 		o.Fail("C18.uuid", "name=%s got=%s (%s) want=%s panic=%q", hx.Hex(name), hx.Hex(got[:]), str, wantStr, p)
 	}
+	trUUID(o, cat, name, got, p)
 }
 
 // ---------------------------------------------------------------- session hash
@@ -109,6 +110,7 @@ func digestCase(o *hx.Out, cat string, sid string, secret, key []byte) {
 	if gb != gs || pb != ps {
 		o.Fail("C18.digest.differ", "sha1=%s bot=%q server=%q", hx.Hex(d), gb, gs)
 	}
+	trDigest(o, cat, nontrivial, cl, gb, pb, gs, ps)
 }
 
 // steer searches a secret whose digest (with a fixed server id and key) satisfies want.
@@ -222,6 +224,7 @@ func lbCase(o *hx.Out, cat string, chunks [][]byte) {
 	if p != "" || failed || !bytes.Equal(out, want) {
 		o.Fail("C18.pem.lines", "chunks=%s out=%s want=%s panic=%q", cs, hx.Hex(out), hx.Hex(want), p)
 	}
+	trLB(o, cat, cs, out, ns, p, failed, len(all) >= 76)
 }
 
 type verKey struct {
@@ -256,6 +259,7 @@ func vsCase(o *hx.Out, cat string, vk verKey, key, sig []byte) {
 		impl = fmt.Sprintf("vs panic %s", hx.Hex(payload))
 	}
 	o.Case(cat, len(sig) == vk.pub.Size(), fmt.Sprintf("vs %s %s %s %s %s %s", hx.Hex(vk.fp), hx.Hex(key), hx.Hex(sig), hx.Hex(b64), hx.Hex(hsum[:]), b01(verdict)), impl)
+	o.Case(cat+".translated", len(sig) == vk.pub.Size(), fmt.Sprintf("tvs %s %s %s %s %s %s", hx.Hex(vk.fp), hx.Hex(key), hx.Hex(sig), hx.Hex(b64), hx.Hex(hsum[:]), b01(verdict)), "t"+impl)
 	which := "swapped"
 	if vk.real {
 		which = "mojang"
@@ -294,6 +298,7 @@ func pkvCase(o *hx.Out, cat string, vk verKey, prof *rsa.PublicKey, now time.Tim
 	}
 	expired := expires.Before(now)
 	o.Case(cat, !expired, fmt.Sprintf("pkv %s %d %d %s %s %s %s %s", hx.Hex(vk.fp), now.UnixMilli(), expires.UnixMilli(), derS, hx.Hex(sig), hx.Hex(b64), hx.Hex(hsum[:]), b01(verdict)), impl)
+	o.Case(cat+".translated", !expired, fmt.Sprintf("tpkv %s %d %d %s %s %s %s %s", hx.Hex(vk.fp), now.UnixMilli(), expires.UnixMilli(), derS, hx.Hex(sig), hx.Hex(b64), hx.Hex(hsum[:]), b01(verdict)), "t"+impl)
 	if p != "" {
 		o.Fail("C18.pkverify.panic", "panic=%q", p)
 	}
@@ -721,4 +726,7 @@ func main() {
 	}
 	user.VerifC18SetPubKey(mojangPub)
 	vsCase(o, "verify.mojang.forger-signature", mojang, profDER, valid)
+
+	// ---------------- phase 4: server/auth encryptionResponse and the AES key-length gate
+	phase4Enc(o)
 }
